@@ -104,6 +104,62 @@ def check_input(rep, drv, data, specs, tier):
                                  [gen.val_sexp(md[1]), md[2].hex()], repr(idr[:3])[:300])
 
 
+def tlv(tagbyte, content):
+    n = len(content)
+    if n < 128:
+        return bytes([tagbyte, n]) + content
+    ln = n.to_bytes((n.bit_length() + 7) // 8, 'big')
+    return bytes([tagbyte, 0x80 | len(ln)]) + ln + content
+
+
+def check_large_scalars(rep, tier):
+    """long contents of the numeric types (thousands of octets / digits), valid and cut short, against plain and
+    constrained guiding types: Python's limits on huge numbers (int -> str beyond 4300 digits, float range) must not
+    show through as non-library exceptions"""
+    from pyasn1.type import univ, constraint, namedtype
+    rng_int = univ.Integer().subtype(subtypeSpec=constraint.ValueRangeConstraint(0, 10))
+    sv_int = univ.Integer().subtype(subtypeSpec=constraint.SingleValueConstraint(1, 2))
+    enum = univ.Enumerated(namedValues=[('a', 1)]).subtype(subtypeSpec=constraint.SingleValueConstraint(1))
+    seqof = univ.SequenceOf(componentType=rng_int)
+    rec = univ.Sequence(componentType=namedtype.NamedTypes(namedtype.NamedType('n', rng_int),
+                                                           namedtype.OptionalNamedType('r', univ.Real())))
+    sizes = (500, 1900, 3000) if tier == 'quick' else (200, 500, 1800, 1900, 2100, 3000, 5000, 20000)
+    inputs = []
+    for n in sizes:
+        big = b'\x7f' + b'\xff' * n
+        neg = b'\x80' + b'\x00' * n
+        arc = b'\xff' * n + b'\x7f'
+        inputs += [
+            ('int+', tlv(0x02, big), [None, univ.Integer(), rng_int, sv_int]),
+            ('int-', tlv(0x02, neg), [None, rng_int]),
+            ('enum', tlv(0x0a, big), [None, enum, univ.Enumerated()]),
+            ('seqof-int', tlv(0x30, tlv(0x02, big)), [None, seqof]),
+            ('rec-int', tlv(0x30, tlv(0x02, big)), [rec]),
+            ('oid-huge-arc', tlv(0x06, b'\x2a' + arc), [None, univ.ObjectIdentifier()]),
+            ('oid-huge-arc-cut', tlv(0x06, b'\x2a' + arc + b'\x81'), [None, univ.ObjectIdentifier()]),
+            ('oid-huge-arc-then-cut', tlv(0x06, b'\x2a' + arc + arc[:-1]), [None, univ.ObjectIdentifier()]),
+            ('real-nr1-zeros', tlv(0x09, b'\x01' + b'1' + b'0' * n), [None, univ.Real()]),
+            ('real-nr1-digits', tlv(0x09, b'\x01' + b'7' * n), [None, univ.Real()]),
+            ('real-nr2', tlv(0x09, b'\x02' + b'1' * n + b'.' + b'5' * 20), [None, univ.Real()]),
+            ('real-nr3', tlv(0x09, b'\x03' + b'1' * 20 + b'.E+' + b'9' * min(n, 400)), [None, univ.Real()]),
+            ('real-bin-huge-exp', tlv(0x09, b'\x83' + bytes([min(n, 255)]) + b'\x7f' * min(n, 255) + b'\x01'), [None, univ.Real()]),
+            ('real-bin-huge-mant', tlv(0x09, b'\x80\x01' + b'\xff' * n), [None, univ.Real()]),
+            ('rec-real', tlv(0x30, tlv(0x02, b'\x05') + tlv(0x09, b'\x01' + b'1' + b'0' * n)), [rec]),
+            ('bits-long', tlv(0x03, b'\x07' + b'\xff' * n), [None, univ.BitString()]),
+        ]
+    for name, data, schemas in inputs:
+        for schema in schemas:
+            spec_s = 'large:%s/%s' % (name, type(schema).__name__ if schema is not None else 'none')
+            rep.case('large-scalar %s %d' % (spec_s, len(data)), nontrivial=True)
+            rep.count('large-scalars')
+            for cut in (None, len(data) - 1, len(data) // 2):
+                d = data if cut is None else data[:cut]
+                for cdc in ('ber', 'cer', 'der'):
+                    dec = codec.DEC[cdc]
+                    judge(rep, 'oneshot', spec_s, cdc, d, run_oneshot(dec, d, schema))
+                    judge(rep, 'streaming', spec_s, cdc, d, run_streaming(dec, d, schema))
+
+
 def has_text(t):
     k = t[0]
     if k == 'str':
@@ -164,6 +220,7 @@ def run(rep, tier, seed):
         data = bytes.fromhex(h)
         rep.case('corpus ' + h)
         check_input(rep, drv, data, specs, tier)
+    check_large_scalars(rep, tier)
     # exhaustive small inputs
     maxlen = 3 if tier == 'thorough' else 2
     for n in range(0, maxlen + 1):
